@@ -22,6 +22,8 @@ inductive Clause
   | noCrash              -- macro expansion always terminates with a value or an error: never a crash, abort or hang
   | signalUnknown        -- a plugin that ends without an exit code of its own (terminated by a signal) is UNKNOWN
   | envVerbatim          -- environment variables of the command carry the macro values verbatim
+  | arrayCmdVerbatim     -- array command line: one argv element per element, the element's text with the macro values verbatim
+  | undefinedMissing     -- a macro defined on no host / service / command / custom variable level is a missing macro
   deriving Repr, DecidableEq
 
 def Clause.name : Clause → String
@@ -30,6 +32,7 @@ def Clause.name : Clause → String
   | .failedNotRun => "failed_not_run" | .timeoutUnknown => "timeout_unknown"
   | .argvLayout => "argv_layout" | .cachedEqualsDirect => "cached_equals_direct" | .fillNotRun => "fill_not_run"
   | .noCrash => "no_crash" | .signalUnknown => "signal_unknown" | .envVerbatim => "env_verbatim"
+  | .undefinedMissing => "undefined_macro_missing" | .arrayCmdVerbatim => "array_cmd_verbatim"
 
 /-- Exit codes 0/1/2/3 map to OK/WARNING/CRITICAL/UNKNOWN and anything else to UNKNOWN. -/
 def specState (exit : Int) : Nat :=
@@ -269,6 +272,25 @@ def specStringCmd (template : Bytes) (valueOf : Bytes → Option Bytes) (argv : 
   | some ws => if argv = ws then none else some .stringCmdVerbatim
   | none => none
 
+/-! ### Array command lines: one argv element per element of the array, macro values verbatim, no shell -/
+
+/-- What one element of an array command line denotes: its text with each macro replaced by the macro's value,
+    verbatim (`$$` is the macro named "" whose value is `$`).  `none`: a `$` without partner, or a macro without a
+    scalar value (an array-valued macro is joined by `;` — the property does not say so, it is not judged here). -/
+def specExpectedElem (valueOf : Bytes → Option Bytes) (tmpl : Bytes) : Option Bytes :=
+  let toks := tokenize tmpl
+  match symLine toks with
+  | some syms => if (macroNames toks).all (fun n => (valueOf n).isSome) then some (fillSym valueOf syms) else none
+  | none => none
+
+/-- The argument vector begins with exactly one element per element of the command array — whatever bytes the values
+    contain, nothing is split, merged, quoted or dropped — followed by what the `arguments` dictionary contributes
+    (clause `argv_layout`); without a dictionary nothing follows. -/
+def specArrayCmd (elems : List Bytes) (valueOf : Bytes → Option Bytes) (hasArgs : Bool) (argv : List Bytes) : Option Clause :=
+  match elems.mapM (specExpectedElem valueOf) with
+  | some ws => if (if hasArgs then ws.isPrefixOf argv else argv = ws) then none else some .arrayCmdVerbatim
+  | none => none
+
 /-- Argument resolution failed (the output is the diagnostic of the exception): UNKNOWN, nothing ran. -/
 def specFailed (ran : Bool) (obsState : Nat) (obsExit : Int) : Option Clause :=
   if !ran ∧ obsState = 3 ∧ obsExit = 3 then none else some .failedNotRun
@@ -278,6 +300,12 @@ def specFailed (ran : Bool) (obsState : Nat) (obsExit : Int) : Option Clause :=
     The wording of the marker the implementation puts into the output is not part of the property. -/
 def specTimeout (obsState : Nat) (gone : Bool) : Option Clause :=
   if obsState = 3 ∧ gone then none else some .timeoutUnknown
+
+/-- "Its timeout": the `check_timeout` of the host or service when it has one, else the `timeout` of the command. -/
+def itsTimeout (command : Nat) (checkable : Option Nat) : Nat :=
+  match checkable with
+  | some t => t
+  | none => command
 
 /-- "Exit codes 0/1/2/3 map to OK/WARNING/CRITICAL/UNKNOWN and anything else to UNKNOWN": a plugin that is
     terminated by a signal (SIGSEGV, SIGHUP, SIGKILL by the OOM killer, …) has no exit code at all — it is
@@ -294,5 +322,32 @@ def specEnv (expected : Option Bytes) (seen : Option Bytes) : Option Clause :=
   match expected with
   | none => none
   | some e => if seen = some e then none else some .envVerbatim
+
+/-! ### Where macro values come from -/
+
+/-- Macro values come from the host, service, command and custom variable levels (the global `Vars` constant
+    included): a short macro name — no `object.` prefix — is DEFINED when one of the levels has a custom variable
+    or an attribute of that name.  (`vars` itself names the dictionary of a level.) -/
+def definedOnSomeLevel (levels : List Obj) (n : Bytes) : Bool :=
+  n = sVars || levels.any (fun o => (assoc o.vars n).isSome || (assoc o.attrs n).isSome)
+
+/-- A short macro name that no level defines: whatever else the daemon could find under that name (a variable of
+    its own environment, …) it is a MISSING macro. -/
+def undefinedShort (levels : List Obj) (n : Bytes) : Bool :=
+  !n.isEmpty && !n.contains DOT && !definedOnSomeLevel levels n
+
+/-- A string that mentions (at its top level) a short macro no level defines resolves — when it resolves — with the
+    "a macro is missing" report set; that report is what drops an optional argument and fails a required one. -/
+def specUndefined (levels : List Obj) (s : Bytes) (obsMissing : Bool) : Option Clause :=
+  if (macroNames (tokenize s)).any (undefinedShort levels) && !obsMissing then some .undefinedMissing else none
+
+/-- … and an argument without `set_if` whose value is such a string, when `required`, fails the resolution.
+    `failed`: the implementation's `ResolveArguments` threw. -/
+def requiredUndefined (levels : List Obj) (a : ArgSpec) : Bool :=
+  a.setIf.isEmpty && a.required &&
+    (match a.value with | .str v => (macroNames (tokenize v)).any (undefinedShort levels) | _ => false)
+
+def specRequiredUndefined (levels : List Obj) (args : List ArgSpec) (failed : Bool) : Option Clause :=
+  if args.any (requiredUndefined levels) && !failed then some .undefinedMissing else none
 
 end Icinga.C09
